@@ -176,3 +176,17 @@ package surveyor
 //@ func (*context).SendMsg
 //@   loop 2 ensures called_since("loop2:head", "Clone") && sel("select#1") != -2
 //@   before select#1 assert selsends(p.sendQ)
+
+// ---- generated wrapper contracts (tools/gen_wrapper_contracts.py) ----
+//@ func NewSocket
+//@   ghost pr = result at call:NewProtocol#1
+//@   ghost so = result at call:MakeSocket#1
+//@   before call:NewProtocol#1 assert callee_is("protocol/surveyor.NewProtocol")
+//@   before call:MakeSocket#1 assert arg0 == pr
+//@   ensures isnil(result1) && result0 == so
+// ---- end generated wrapper contracts ----
+
+// ---- round 12: cancel records the reason before anybody can observe the closed queue, runs once ----
+//@ func (*survey).cancel$1
+//@   before call:Lock#1 assert s.err == err
+//@   ensures closed(s.recvQ) && !held(s.sock.Mutex)
